@@ -10,7 +10,7 @@ VALIDATE_MODELS = ['ws', 'utf8', 'graphemes']
 VALIDATION_CASES = {'quick': 200, 'thorough': 800}
 TIME_BUDGET = {'quick': 900, 'thorough': 3300}
 BOUNDS = {
-    'quick': '|a|, |b| <= 3 characters; characters fully symbolic inside their UTF-8 width class (equality pattern and '
+    'quick': 'one long text (300 and 65540 letters + a symbolic character: lengths across 2^8 and 2^16) against a text of 0-1 symbolic characters; |a|, |b| <= 3 characters; characters fully symbolic inside their UTF-8 width class (equality pattern and '
              'whitespace-ness decided by the solver): all width vectors over {1,3} for |a|,|b| <= 2, the vectors 1.. and '
              '1,3,1../3,1,3.. when one side has 3; all 8 flag combinations; grapheme mode: |a|+|b| <= 3 code points over '
              'Sigma_g (widths 1-3, two flag combinations); distances(): 0-2 pairs',
@@ -61,6 +61,11 @@ def shapes(tier):
             for sw, sp, nm in gflags:
                 out.append({'g': True, 'wa': wa, 'wb': wb, 'swap': sw, 'spaces': sp, 'norm': nm})
     out.append({'g': False, 'wa': [1], 'wb': [1], 'multi': True})
+    # one long text against a text of 0-1 symbolic characters: lengths that cross 2^8 and 2^16 (the cost matrix has one
+    # long border); concrete filler, a symbolic last character
+    for n in ((300, 65540) if tier == 'quick' else (255, 256, 300, 65535, 65536, 65540, 70000)):
+        for lb in ((0,) if n > 1000 else (0, 1)):
+            out.append({'g': False, 'wa': [1], 'wb': [1] * lb, 'long': n, 'swap': True, 'spaces': False, 'norm': n % 2 == 0})
     tiny = [s for s in out if len(s['wa']) + len(s['wb']) <= 1]
     rest = [s for s in out if len(s['wa']) + len(s['wb']) > 1]
     rest.sort(key=lambda s: -(len(s['wa']) * len(s['wb'])))
@@ -93,7 +98,47 @@ def unit_strs(ctx, s, g):
     return chars, units_of(ctx, chars, g)
 
 
+def setup_machine(machine, shape, opts):
+    if shape is not None and shape.get('long'):
+        machine.step_budget = max(machine.step_budget, 80000000)      # one long border of the cost matrix
+
+
+def long_text(shape, tail):
+    return [0x61] * shape['long'] + list(tail)
+
+
+def run_long(ctx, shape, opts):
+    """a = filler of `long` letters a + one symbolic character, b = 0-1 symbolic characters"""
+    m = ctx.m
+    ta = ctx.in_string('a', shape['wa']).chars()
+    b = ctx.in_string('b', shape['wb'])
+    cb = b.chars()
+    swap, spaces, norm = shape['swap'], shape['spaces'], shape['norm']
+    ctx.inputs.update({'with_swap': swap, 'spaces_insert_delete_only': spaces, 'normalized': norm})
+    chars = [Int(0x61, 'char')] * shape['long'] + list(ta)
+    buf = StrBuf(chars, [ctx.char_width(c) for c in chars])
+    a = StrRef(buf, 0, buf.byte_len())
+    N = len(chars)
+    # reference: all but at most one character of a are deleted; the single character of b is matched if it occurs in a
+    if cb:
+        hit = ctx.branch(m.disj([m.eq(cb[0], Int(0x61, 'char')), m.eq(cb[0], ta[0])]))
+        want = N - 1 if hit else N
+    else:
+        want = N
+    dist = m.call('distance', a, b, False, swap, spaces, norm)
+    ctx.out('distance', dist)
+    exp = (want / N) if norm else float(want)
+    ctx.require(isinstance(dist.v, float) and dist.v == exp, 'distance == reference DP')
+    ops = m.call('edit::operations', a, b, False, swap, spaces)
+    nops = len(m.peel(ops).items)
+    ctx.out('n_operations', nops)
+    ctx.require(nops == want, 'operations: script length == unnormalised distance')
+    ctx.sample = {'long': shape['long'], 'lb': len(cb), 'distance': want}
+
+
 def run(ctx, shape, opts):
+    if shape.get('long'):
+        return run_long(ctx, shape, opts)
     m = ctx.m
     g = shape['g']
     a = ctx.in_string('a', shape['wa'])
@@ -235,6 +280,16 @@ def _gunits(native, cps, g):
 def native_outputs(native, shape, inputs):
     g = shape['g']
     a, b = inputs['a'], inputs['b']
+    if shape.get('long'):
+        fl = dict(g=False, swap=bool(inputs['with_swap']), spaces=bool(inputs['spaces_insert_delete_only']), norm=bool(inputs['normalized']))
+        la = long_text(shape, a)
+        k, v = native_ok(native.call('edit_distance', a=la, b=b, _timeout=120.0, **fl))
+        if k != 'ok':
+            return {'panic': v}
+        k2, v2 = native_ok(native.call('edit_operations', a=la, b=b, _timeout=120.0, **fl))
+        if k2 != 'ok':
+            return {'panic': v2}
+        return {'distance': v, 'n_operations': len(v2)}
     fl = dict(g=g, swap=bool(inputs['with_swap']), spaces=bool(inputs['spaces_insert_delete_only']),
               norm=bool(inputs['normalized']))
     out = {}
@@ -256,6 +311,19 @@ def native_outputs(native, shape, inputs):
 
 
 def concrete_check(native, inputs, shape):
+    if shape.get('long'):
+        o = native_outputs(native, shape, inputs)
+        if 'panic' in o:
+            return ['no panic']
+        la, b = long_text(shape, inputs['a']), inputs['b']
+        N = len(la)
+        want = N - 1 if (b and b[0] in la) else N
+        failed = []
+        if o['distance'] != ((want / N) if inputs['normalized'] else float(want)):
+            failed.append('distance == reference DP')
+        if o['n_operations'] != want:
+            failed.append('operations: script length == unnormalised distance')
+        return failed
     g = shape['g']
     a, b = inputs['a'], inputs['b']
     swap, spaces, norm = bool(inputs['with_swap']), bool(inputs['spaces_insert_delete_only']), bool(inputs['normalized'])
